@@ -407,6 +407,7 @@ func TestCheck(t *testing.T) {
 
 	// -- 4. sender cache: every ordered pair of signers ---------------------------------------------
 	senderCache(rep, pick(bases, pickN(run, 64, 512)), signers)
+	signAfterLooking(rep, pick(bases, pickN(run, 256, 2048)), keys)
 	phase("cache")
 
 	// -- 5. single-field replacement ---------------------------------------------------------------
@@ -630,6 +631,58 @@ func senderCache(rep *reporter, bases []*baseTx, signers []sgn) {
 				}
 			}
 		}
+	})
+}
+
+// signAfterLooking: the object that is signed has been queried before (hash, size, sender under the
+// signer). The signed transaction is a new value: its hash is the hash of ITS encoding, its sender the
+// key that signed it - also when the same content is then signed again with another key.
+func signAfterLooking(rep *reporter, bases []*baseTx, keys []keyCase) {
+	run := rep.run
+	ev.ParallelFor(len(bases), func(i int) {
+		b := bases[i]
+		other := keys[(b.ki+1)%len(keys)]
+		fail := func(oracle, msg string) {
+			if _, dup := rep.seen.LoadOrStore("looked/"+oracle+b.s.kind, true); !dup {
+				run.Violate(ev.Violation{Scenario: "sign-after-looking", Oracle: oracle, CaseID: b.s.kind, Detail: map[string]interface{}{"case": b.id(), "observed": msg}})
+			}
+		}
+		defer func() {
+			if r := recover(); r != nil {
+				fail("no-panic", fmt.Sprint(r))
+			}
+		}()
+		u := b.c.unsigned()
+		u.Hash()
+		u.Size()
+		s1, err := types.SignTx(u, b.s.real(), b.key.priv)
+		run.Eval(1)
+		if err != nil {
+			return
+		}
+		enc1, _ := rlp.EncodeToBytes(s1)
+		if s1.Hash() != common.BytesToHash(keccak(enc1)) {
+			fail("hash-is-keccak-of-rlp", fmt.Sprintf("signed after Hash() was called on the unsigned object: reports %x, its encoding hashes to %x", s1.Hash(), keccak(enc1)))
+		}
+		if int(s1.Size()) != len(enc1) {
+			fail("size-is-encoded-size", fmt.Sprintf("reports size %v, encodes to %d bytes", s1.Size(), len(enc1)))
+		}
+		if a, err := types.Sender(b.s.real(), s1); err != nil || a != b.key.addr {
+			fail("sender-is-the-signing-key", fmt.Sprintf("%x %v", a, err))
+		}
+		// the same object (sender now cached) signed again with another key
+		s2, err := types.SignTx(s1, b.s.real(), other.priv)
+		if err != nil {
+			return
+		}
+		enc2, _ := rlp.EncodeToBytes(s2)
+		if a, err := types.Sender(b.s.real(), s2); err != nil || a != other.addr {
+			fail("sender-is-the-signing-key", fmt.Sprintf("re-signed with key %s: Sender reports %x %v, the signing key's address is %x", other.name, a, err, other.addr))
+		}
+		if s2.Hash() != common.BytesToHash(keccak(enc2)) {
+			fail("hash-is-keccak-of-rlp", fmt.Sprintf("re-signed: reports %x, its encoding hashes to %x", s2.Hash(), keccak(enc2)))
+		}
+		run.Class("sign-after-looking|" + b.s.kind)
 	})
 }
 
